@@ -285,7 +285,7 @@ def render_tokens(rng, toks, directives=True, filename="f.c"):
                 emit(f"#line {newline}\n")
                 line = newline
             elif kind == 1:
-                nf = rng.choice(["a.h", "dir/b.c", "x y.c", "C:\\\\dir\\\\f.h"])
+                nf = rng.choice(["a.h", "dir/b.c", "x y.c", "C:\\\\dir\\\\f.h", "inc/my\\\"quoted\\\".h", "q\\\"", "\\\\"])
                 emit(f"# {newline} \"{nf}\" {rng.choice(['', '1', '3 4'])}".rstrip() + "\n")
                 line, cur_file = newline, nf
             elif kind == 2:
